@@ -262,11 +262,11 @@ _LOOP_COMMON = {"pkgdir": ".", "mode": "int", "unwind": 8, "contracts": ["bytesl
 PROPS["C08"] = {
     "level": "other",
     "level_text": "Bounded symbolic execution of the real readUDP / Write / SendTo / Writev path on a UDP listener over a ghost kernel holding a datagram of symbolic length (0..65507), content and source address; two consecutive datagrams; z3 decides every obligation.",
-    "level_note": "The kernel is a stub (one datagram waiting, recvfrom truncates to the buffer, sendto records destination and bytes); concurrent senders are the kernel's queueing and are outside; IPv4 source addresses in the harness (the conversion code for IPv6 is covered by C17). Trusted: go/ssa lowering, SSA->SMT translation, z3.",
+    "level_note": "The kernel is a stub (one datagram waiting, recvfrom truncates to the buffer, sendto records destination and bytes); concurrent senders are the kernel's queueing and are outside; IPv4 sources with symbolic sizes/content in the main harnesses, two consecutive IPv6 senders (symbolic 16-byte addresses and ports, 2-byte payloads) and a zero-copy AsyncWrite echo in harnesses of their own. Trusted: go/ssa lowering, SSA->SMT translation, z3.",
     "design_ref": "DESIGN.md section 5 (loop-step family, C08)",
     "explanation": "readUDP executed from go/ssa with system calls redirected to the ghost kernel in scratch copies of the calling files.",
     "bounds": {"datagram": "0..65507 bytes", "read_buffer": "1..2^31", "events": "3 consecutive readUDP calls"},
-    "outside": ["IPv6 sources in this harness", "arrival interleavings of several senders (kernel queue)"],
+    "outside": ["arrival interleavings of several senders (kernel queue)", "IPv6 zones on datagram sources (conversion: C17)"],
     "assumptions": ["ghost kernel contract for recvfrom/sendto"],
     "units": [dict(_LOOP_COMMON, name="loop-udp", files=["harness/gnet/vloop_world.go", "harness/gnet/c14_pick.go", "harness/gnet/c08_udp.go"])],
 }
@@ -298,7 +298,7 @@ PROPS["C04"] = {
 PROPS["C02"] = {
     "level": "other",
     "level_text": "Bounded symbolic execution of one outbound operation of the real I/O path (conn.write/writev/open, asyncWrite(v) tasks through the real poller queue, eventloop.write, the real elastic ring+list buffer) from an arbitrary valid outbound-buffer state over a ghost kernel that accepts any prefix; conservation and order of wire++buffer are checked at a free position, LT write-interest and ET re-flush obligations included; the invariant is re-proved (inductive over operation histories).",
-    "level_note": "One operation per harness; <= 2 write(2)/writev(2) calls per event (quick); payload sizes <= 2^31; Writev with 1..2 segments plus the concrete 1025-segment case; thorough: 3 write calls per event and an arbitrary outbound-buffer shape in every harness (the configuration with 2 list nodes and 3 segments did not finish in 90 min and is not registered); kernel = stub contract (short write => socket buffer full; ET EAGAIN after short write). Eventual drain ('never remains unsent forever') is reduced to the one-step progress/re-arm obligations. Trusted: go/ssa lowering, SSA->SMT translation, z3.",
+    "level_note": "One operation per harness; <= 2 write(2)/writev(2) calls per event (quick); payload sizes <= 2^31; Writev with 1..2 segments plus the concrete 1025-segment case; thorough: 3 write calls per event and an arbitrary outbound-buffer shape in every harness (the configuration with 2 list nodes and 3 segments did not finish in 90 min and is not registered); kernel = stub contract (short write => socket buffer full; ET EAGAIN after short write). Eventual drain ('never remains unsent forever') is reduced to the one-step progress/re-arm obligations plus the reactor harness (real run()+Polling: request, reply <= 3 bytes by Write/Writev/AsyncWrite against a kernel taking any prefix, EPOLLOUT - in ET mode only as a transition from a full socket - and eventfd events until the loop goes idle; thorough: small ET chunk limit and a unit with iovMax scaled from 1024 to 1 so that a flush needs three follow-up rounds). Trusted: go/ssa lowering, SSA->SMT translation, z3.",
     "design_ref": "DESIGN.md section 5 (loop-step family, C02)",
     "explanation": "Real framework code from go/ssa over the ghost kernel.",
     "bounds": {"operations": 1, "writes_per_event": 2, "writev_segments": "1..2 (+1025 concrete)", "sizes": "<= 2^31"},
